@@ -140,6 +140,23 @@ DEPKINDS = {
         ('A', 'type {_} {{ multi bs: {B}; }}'),
         ('B', 'type {_} {{ multi link owners := .<bs[is {A}]; n := '
               'count(.owners); }}')],
+    # pointers reached through a type two or more `extending` steps below
+    # the one declaring them (no overload in between)
+    'backlink_deep_intersection': [
+        ('Target', 'type {_} {{ multi link users := .<ref[is {Leaf}]; }}'),
+        ('Base', 'abstract type {_} {{ link ref: {Target}; }}'),
+        ('Mid', 'abstract type {_} extending {Base};'),
+        ('Leaf', 'type {_} extending {Mid};')],
+    'deep_inherited_paths': [
+        ('Q', 'type {_} {{ multi link ls := (select {Leaf} filter '
+              '(.nm ?? "") != "x"); n := count(.ls.ref.v); '
+              'property t := (select {Leaf} limit 1).ref@w; }}'),
+        ('g', 'global {_} := count({Leaf}.ref.<ref[is {Leaf}].nm);'),
+        ('Tg', 'type {_} {{ v: int64; }}'),
+        ('Base', 'abstract type {_} {{ nm: str; link ref: {Tg} '
+                 '{{ w: int64; }} }}'),
+        ('Mid', 'type {_} extending {Base};'),
+        ('Leaf', 'type {_} extending {Mid};')],
     'union_target': [
         ('A', 'type {_} {{ n: str; }}'), ('B', 'type {_} {{ n: str; }}'),
         ('C', 'type {_} {{ l: {A} | {B}; m := .l.n; }}')],
